@@ -81,6 +81,11 @@ func init() {
 		rulePlainIterator(c, "C03-R3", "C03-R3")
 		ruleNativeWrites(c, "C03-R4")
 		ruleStartupCapture(c, "C03-R5")
+		c.Rule("C03-R6", "SYNCED-ID-BOUNDED: the id reported as synced is min(txn.ID(), LastTxnID)")
+		ruleSyncedIdBound(c, "C03-R6")
+		c.Rule("C03-R7", "CAPTURE-COMPLETE: the capture pass runs unconditionally in shadow mode and passes no application DBI over")
+		ruleSendDump(c, "C03-R7", "C03-R7", "C03-R7")
+		ruleMainToShadow(c, "C03-R7", "C03-R7", "C03-R7")
 	})
 }
 
@@ -133,6 +138,9 @@ func init() {
 		ruleStoreOrFail(c, "C05-R4", "C05-R5", "C05-R4")
 		ruleFatal(c, "C05-R6")
 		ruleCleanerDeletes(c, "C05-R7", "C05-R7", "C05-R7", "C05-R7", "C05-R7", "C05-R7")
+		ruleCommittedCopied(c, "C05-R5")
+		c.Rule("C05-R8", "CORRUPT-ONLY-ON-DECODE-ERROR: a snapshot is marked corrupt (ignored from then on) only when decoding it failed")
+		ruleMarkCorrupt(c, "C05-R8")
 	})
 
 	register("C06", propMeta{
@@ -167,6 +175,9 @@ func init() {
 		ruleWatermarkAtomic(c, "C09-R3")
 		ruleStoreOrFail(c, "C09-R4", "C09-R4", "C09-R4")
 		ruleCaptureBeforeProject(c, "C09-R2")
+		c.Rule("C09-R5", "SYNCED-ID-BOUNDED: the id reported as synced is min(txn.ID(), LastTxnID)")
+		ruleSyncedIdBound(c, "C09-R5")
+		ruleSendDump(c, "C09-R5", "C09-R5", "C09-R5")
 	})
 
 	register("C10", propMeta{
@@ -193,6 +204,8 @@ func init() {
 		ruleCleanTable(c, "C10-R2")
 		ruleTrigger(c, "C10-R3", "C10-R3")
 		ruleWatermarkWriters(c, "C10-R4")
+		c.Rule("C10-R5", "NO-REBUILD: a plain DBI is projected with IterUpdate (no write when unchanged); only dupsort DBIs are rebuilt")
+		ruleShadowToMain(c, "C10-R5", "C10-R5")
 	})
 
 	register("C18", propMeta{
@@ -261,6 +274,7 @@ func init() {
 		ruleCleanerDeletes(c, "C12-R2", "C12-R3", "C12-R4", "C12-R5", "C12-R6", "C12-R7")
 		ruleReceiveOnlyCleaner(c, "C12-R7")
 		ruleStoreOrFail(c, "C12-R5", "C12-R5", "C12-R7")
+		ruleCommittedCopied(c, "C12-R5")
 	})
 
 	register("C13", propMeta{
@@ -275,5 +289,28 @@ func init() {
 		c.Rule("C13-R5", "PER-DBI RESUME CURSOR")
 		ruleSweeper(c, "C13-R1", "C13-R3", "C13-R4", "C13-R5")
 		ruleSweeperCutoff(c, "C13-R2")
+	})
+}
+
+func init() {
+	register("C16", propMeta{
+		Explanation: staticNote + "Decides delivery/limit structure: (R1) in Downloader.LoadOnce every acquired token is released on every path or handed to the stored update's OnClose, which releases it; (R2) a replaced, not yet merged snapshot is closed; (R3) the sync loop closes every update it obtained directly after LoadOnce; (R4) a failed load sleeps (cancellable) and re-reads the newest name, and/or the receiver notifies on every change of an instance's newest name, so an older decodable snapshot is delivered when the newest is corrupt; corrupt blobs are marked only on decode errors, copied into the ignore list, which gates the listing; (R5) syncLoop returns nil only under OnlyOnce ∧ waiting set empty; instances that disappeared are removed from the waiting set; (R6) the limiter's channel capacity equals the number of tokens, Tokens are minted only after a receive, Release is idempotent; (R7) Next removes what it hands out under the lock.",
+		NotDecided:  "Eventual delivery as a liveness property; relative speeds; memory actually held by decoded snapshots.",
+		Assumptions: []string{"simpleblob List/Load semantics"},
+	}, func(c *Check) {
+		c.Rule("C16-R1", "TOKEN-PAIRING")
+		c.Rule("C16-R2", "OVERWRITE-CLOSED")
+		c.Rule("C16-R3", "CONSUMED-CLOSED")
+		c.Rule("C16-R4", "RETRY / NOTIFY / CORRUPT-IGNORED")
+		c.Rule("C16-R5", "RUN-ONCE exit and disappeared instances")
+		c.Rule("C16-R6", "LIMITER")
+		ruleDownloaderLoad(c, "C16-R1", "C16-R2", "C16-R4")
+		ruleConsumedClosed(c, "C16-R3")
+		ruleRetryAndNotify(c, "C16-R4")
+		ruleMarkCorrupt(c, "C16-R4")
+		ruleReceiverListing(c, "C16-R4", "C16-R4")
+		ruleRunOnceExit(c, "C16-R5")
+		ruleCleanDisappeared(c, "C16-R5")
+		ruleLimiter(c, "C16-R6")
 	})
 }
